@@ -84,6 +84,16 @@ func workload(seed int64, calls int, dir string) uint64 {
 			add(fileseq.PadFrameRange(ranges[r.Intn(len(ranges))], r.Intn(6)))
 		case 4:
 			add(fileseq.FramesToFrameRange([]int{r.Intn(5), 7 + r.Intn(3), 20, 22, 24}, r.Intn(2) == 0, []int{0, 1, 2, 3, 4, 9, 16, 17, 18, 23, 40}[r.Intn(11)]))
+			if r.Intn(3) == 0 {
+				// a long private list, sorted by the library (scratch buffers must be private too)
+				ln := 200 + r.Intn(1300)
+				base := r.Intn(1000000)
+				long := make([]int, ln)
+				for j := range long {
+					long[j] = base + (ln-j)*3
+				}
+				add(fileseq.FramesToFrameRange(long, true, 0))
+			}
 		case 5:
 			paths := []string{"/x/a.1.exr", "/x/a.2.exr", "/x/a.03.exr", "/x/b.txt", "/x/.h.1.exr"}
 			opts := []fileseq.FileOption{fileseq.SingleFiles}
